@@ -87,7 +87,7 @@ extern "C" void h_listing()
   a0[0] = 'n'; a0[1] = 0; a1[0] = '-'; a1[1] = 'l'; a1[2] = 0; a2[0] = 'x'; a2[1] = '.'; a2[2] = 'a'; a2[3] = 's'; a2[4] = 'm'; a2[5] = 0;
   char *argv[4]; argv[0] = a0; argv[1] = a1; argv[2] = a2; argv[3] = 0;
   g_low = nondet_uint(); g_high = nondet_uint();
-  ASSUME(g_low <= g_high && g_high < 0xffffffffu);
+  ASSUME(g_low <= g_high);   /* any range, including one that ends at 0xffffffff */
   g_W = nondet_uint(); g_W_is_data = nondet_int() & 1; g_W_val = nondet_uchar();
   g_hits = 0; g_hit_addr_ok = 0; g_have_label = 0; g_col = 0; g_bad_format = 0; g_started = 0; g_last_read = 0; g_label = 0;
   int r = naken_main(3, argv);
